@@ -455,7 +455,10 @@ class GeminiServerProtocol(asyncio.Protocol):
             )
 
     def _handle_middleware_result(
-        self, task: asyncio.Task, request: GeminiRequest, client_ip: str
+        self,
+        task: asyncio.Task,
+        request: GeminiRequest | TitanRequest,
+        client_ip: str,
     ) -> None:
         """Handle the result of middleware processing.
 
@@ -475,8 +478,11 @@ class GeminiServerProtocol(asyncio.Protocol):
                 self._send_middleware_rejection(error_response)
                 return
 
-            # Middleware allowed request - continue routing
-            self._route_request(request, client_ip)
+            # Middleware allowed request - continue to the handler
+            if isinstance(request, TitanRequest):
+                self._start_titan_upload(client_ip)
+            else:
+                self._route_request(request, client_ip)
 
         except Exception as e:
             logger.error(
@@ -594,7 +600,7 @@ class GeminiServerProtocol(asyncio.Protocol):
                 self._process_titan_upload()
 
     def _process_titan_upload(self) -> None:
-        """Process the Titan upload through the upload handler."""
+        """Run the middleware chain (if any), then the upload handler."""
         if not self.upload_handler or not self.titan_request:
             self._send_error_response(
                 StatusCode.TEMPORARY_FAILURE, "Upload handler error"
@@ -606,6 +612,36 @@ class GeminiServerProtocol(asyncio.Protocol):
         self._request_dispatched = True
 
         client_ip = self.peer_name[0] if self.peer_name else "unknown"
+        request = self.titan_request
+
+        if self.middleware:
+            try:
+                task = asyncio.create_task(
+                    self.middleware.process_request(
+                        request.normalized_url,
+                        client_ip,
+                        request.client_cert_fingerprint,
+                    )
+                )
+                task.add_done_callback(
+                    lambda t: self._handle_middleware_result(t, request, client_ip)
+                )
+            except RuntimeError:
+                # No event loop running: refuse rather than skip the chain
+                self._send_error_response(
+                    StatusCode.TEMPORARY_FAILURE, "Middleware error"
+                )
+            return
+
+        self._start_titan_upload(client_ip)
+
+    def _start_titan_upload(self, client_ip: str) -> None:
+        """Hand the Titan upload to the upload handler."""
+        if not self.upload_handler or not self.titan_request:
+            self._send_error_response(
+                StatusCode.TEMPORARY_FAILURE, "Upload handler error"
+            )
+            return
 
         try:
             # Create async task for upload handler
